@@ -150,10 +150,9 @@ Definition check_unit (u:bool) (v:val) (t:trace) : res val :=
 (** text of an interpolation hole (frt.toS on int, string, bool) *)
 Definition hole_text (v:val) : option string := fmt_atom sops v.
 
-Section Eval.
-Variable funs : list (var * (list var * block)).
+Definition fundefs := list (var * (list var * block)).
 
-Definition lookup_var (x:var) (env:senv) : option val :=
+Definition lookup_var (funs:fundefs) (x:var) (env:senv) : option val :=
   match lookup x env with
   | Some v => Some v
   | None => match lookup x funs with
@@ -162,13 +161,13 @@ Definition lookup_var (x:var) (env:senv) : option val :=
             end
   end.
 
-Fixpoint interp_text (env:senv) (parts:list (string + var)) : option string :=
+Fixpoint interp_text (funs:fundefs) (env:senv) (parts:list (string + var)) : option string :=
   match parts with
   | [] => Some EmptyString
-  | inl s :: r => option_map (String.append s) (interp_text env r)
+  | inl s :: r => option_map (String.append s) (interp_text funs env r)
   | inr x :: r =>
-      match lookup_var x env with
-      | Some v => match hole_text v, interp_text env r with
+      match lookup_var funs x env with
+      | Some v => match hole_text v, interp_text funs env r with
                   | Some a, Some b => Some (a ++ b)%string
                   | _, _ => None
                   end
@@ -176,124 +175,124 @@ Fixpoint interp_text (env:senv) (parts:list (string + var)) : option string :=
       end
   end.
 
-Fixpoint eval (n:nat) (env:senv) (e:expr) (t:trace) {struct n} : res val :=
+Fixpoint eval (funs:fundefs) (n:nat) (env:senv) (e:expr) (t:trace) {struct n} : res val :=
   match n with O => Fuel | S n =>
   match e with
   | EInt z => Done (VInt z) t
   | EStr s => Done (VStr s) t
   | EBool b => Done (VBool b) t
   | EUnit => Done VUnit t
-  | EVar x => of_opt "unbound variable" (lookup_var x env) t
+  | EVar x => of_opt "unbound variable" (lookup_var funs x env) t
   | EBin OAnd a b =>
-      doo va, t1 <- eval n env a t;
+      doo va, t1 <- eval funs n env a t;
       match va with
-      | VBool true => doo vb, t2 <- eval n env b t1;
+      | VBool true => doo vb, t2 <- eval funs n env b t1;
                       match vb with VBool y => Done (VBool y) t2 | _ => Stuck "&&: operand" end
       | VBool false => Done (VBool false) t1
       | _ => Stuck "&&: operand"
       end
   | EBin OOr a b =>
-      doo va, t1 <- eval n env a t;
+      doo va, t1 <- eval funs n env a t;
       match va with
       | VBool true => Done (VBool true) t1
-      | VBool false => doo vb, t2 <- eval n env b t1;
+      | VBool false => doo vb, t2 <- eval funs n env b t1;
                        match vb with VBool y => Done (VBool y) t2 | _ => Stuck "||: operand" end
       | _ => Stuck "||: operand"
       end
   | EBin op a b =>
-      doo va, t1 <- eval n env a t;
-      doo vb, t2 <- eval n env b t1;
+      doo va, t1 <- eval funs n env a t;
+      doo vb, t2 <- eval funs n env b t1;
       of_opt "operator: operands" (arith sops op va vb) t2
   | EEq neg a b =>
-      doo va, t1 <- eval n env a t;
-      doo vb, t2 <- eval n env b t1;
+      doo va, t1 <- eval funs n env a t;
+      doo vb, t2 <- eval funs n env b t1;
       match val_eq va vb with
       | Some r => Done (VBool (if neg then negb r else r)) t2
       | None => Stuck "=: operands are not comparable first-order values"
       end
   | ENot a =>
-      doo va, t1 <- eval n env a t;
+      doo va, t1 <- eval funs n env a t;
       match va with VBool b => Done (VBool (negb b)) t1 | _ => Stuck "not: operand" end
   | EIf c bt bf =>
-      doo vc, t1 <- eval n env c t;
+      doo vc, t1 <- eval funs n env c t;
       match vc with
-      | VBool true => eval_block n env bt t1
-      | VBool false => eval_block n env bf t1
+      | VBool true => eval_block funs n env bt t1
+      | VBool false => eval_block funs n env bf t1
       | _ => Stuck "if: condition"
       end
   | EIfOnly c bt =>
-      doo vc, t1 <- eval n env c t;
+      doo vc, t1 <- eval funs n env c t;
       match vc with
-      | VBool true => doo v, t2 <- eval_block n env bt t1; Done VUnit t2
+      | VBool true => doo v, t2 <- eval_block funs n env bt t1; Done VUnit t2
       | VBool false => Done VUnit t1
       | _ => Stuck "if: condition"
       end
   | ELam ps b => Done (VClo env ps b) t
   | ECall f missing u args =>
-      match lookup_var f env with
+      match lookup_var funs f env with
       | None => Stuck "unbound function"
       | Some fv =>
-          doo vs, t1 <- evals n env args t;
+          doo vs, t1 <- evals funs n env args t;
           match missing with
-          | O => apply n fv vs t1
+          | O => apply funs n fv vs t1
           | S _ => Done (VPap fv vs missing u) t1
           end
       end
   | EExt fn args =>
       if src_fn fn then
-        doo vs, t1 <- evals n env args t;
-        lib_sem sops (apply n) fn vs t1
+        doo vs, t1 <- evals funs n env args t;
+        lib_sem sops (apply funs n) fn vs t1
       else Stuck "not a source-level library function"
   | EPipeVar a f u =>
-      doo va, t1 <- eval n env a t;
-      match lookup_var f env with
+      doo va, t1 <- eval funs n env a t;
+      match lookup_var funs f env with
       | None => Stuck "unbound function"
-      | Some fv => doo v, t2 <- apply n fv [va] t1; check_unit u v t2
+      | Some fv => doo v, t2 <- apply funs n fv [va] t1; check_unit u v t2
       end
   | EPipeCall a f args u =>
-      doo va, t1 <- eval n env a t;
-      match lookup_var f env with
+      doo va, t1 <- eval funs n env a t;
+      match lookup_var funs f env with
       | None => Stuck "unbound function"
       | Some fv =>
-          doo vs, t2 <- evals n env args t1;
-          doo v, t3 <- apply n fv (vs ++ [va]) t2;
+          doo vs, t2 <- evals funs n env args t1;
+          doo v, t3 <- apply funs n fv (vs ++ [va]) t2;
           check_unit u v t3
       end
   | EPipeExt a fn args u =>
       if src_fn fn then
-        doo va, t1 <- eval n env a t;
-        doo vs, t2 <- evals n env args t1;
-        doo v, t3 <- lib_sem sops (apply n) fn (vs ++ [va]) t2;
+        doo va, t1 <- eval funs n env a t;
+        doo vs, t2 <- evals funs n env args t1;
+        doo v, t3 <- lib_sem sops (apply funs n) fn (vs ++ [va]) t2;
         check_unit u v t3
       else Stuck "not a source-level library function"
-  | ETuple es => doo vs, t1 <- evals n env es t; Done (VTuple vs) t1
+  | ETuple es => doo vs, t1 <- evals funs n env es t; Done (VTuple vs) t1
   | ERecord name fields es =>
-      doo vs, t1 <- evals n env es t;
+      doo vs, t1 <- evals funs n env es t;
       if Nat.eqb (List.length fields) (List.length vs) then Done (VRec name (combine fields vs)) t1
       else Stuck "record: field count"
   | EField e f =>
-      doo v, t1 <- eval n env e t;
+      doo v, t1 <- eval funs n env e t;
       match v with
       | VRec _ fs => of_opt "no such field" (lookup f fs) t1
       | _ => Stuck "field access: not a record"
       end
   | ECtor u c None => Done (VUnion u c None) t
-  | ECtor u c (Some a) => doo v, t1 <- eval n env a t; Done (VUnion u c (Some v)) t1
+  | ECtor u c (Some a) => doo v, t1 <- eval funs n env a t; Done (VUnion u c (Some v)) t1
   | EMatchU e uname arms def =>
-      doo v, t1 <- eval n env e t;
+      doo v, t1 <- eval funs n env e t;
       match v with
       | VUnion u c payload =>
           if String.eqb u uname then
             match find_arm c arms with
             | Some (Some x, b) =>
                 match payload with
-                | Some pv => eval_block n ((x, pv) :: env) b t1
+                | Some pv => eval_block funs n ((x, pv) :: env) b t1
                 | None => Stuck "match: binder for a case without payload"
                 end
-            | Some (None, b) => eval_block n env b t1
+            | Some (None, b) => eval_block funs n env b t1
             | None =>
                 match def with
-                | Some b => eval_block n env b t1
+                | Some b => eval_block funs n env b t1
                 | None => Stuck "match: no arm for the case"
                 end
             end
@@ -301,63 +300,63 @@ Fixpoint eval (n:nat) (env:senv) (e:expr) (t:trace) {struct n} : res val :=
       | _ => Stuck "match: not a union value"
       end
   | EMatchS e arms bx last =>
-      doo v, t1 <- eval n env e t;
+      doo v, t1 <- eval funs n env e t;
       match v with
       | VStr s =>
           (* the variable of a trailing variable arm is in scope in the whole match (it is only
              referenced by the last arm in an elaborated program) *)
           let env' := match bx with Some x => (x, v) :: env | None => env end in
           match find_sarm s arms with
-          | Some b => eval_block n env' b t1
-          | None => eval_block n env' last t1
+          | Some b => eval_block funs n env' b t1
+          | None => eval_block funs n env' last t1
           end
       | _ => Stuck "match: not a string"
       end
-  | ESlice es => doo vs, t1 <- evals n env es t; Done (VSlice vs) t1
+  | ESlice es => doo vs, t1 <- evals funs n env es t; Done (VSlice vs) t1
   | EInterp parts =>
-      match interp_text env parts with
+      match interp_text funs env parts with
       | Some s => Done (VStr s) t
       | None => Stuck "interpolation: hole"
       end
-  | EBlock b => eval_block n env b t
+  | EBlock b => eval_block funs n env b t
   end end
-with evals (n:nat) (env:senv) (es:list expr) (t:trace) {struct n} : res (list val) :=
+with evals (funs:fundefs) (n:nat) (env:senv) (es:list expr) (t:trace) {struct n} : res (list val) :=
   match n with O => Fuel | S n =>
   match es with
   | [] => Done [] t
-  | e :: r => doo v, t1 <- eval n env e t; doo vs, t2 <- evals n env r t1; Done (v :: vs) t2
+  | e :: r => doo v, t1 <- eval funs n env e t; doo vs, t2 <- evals funs n env r t1; Done (v :: vs) t2
   end end
-with eval_block (n:nat) (env:senv) (b:block) (t:trace) {struct n} : res val :=
+with eval_block (funs:fundefs) (n:nat) (env:senv) (b:block) (t:trace) {struct n} : res val :=
   match n with O => Fuel | S n =>
   match b with
-  | BLet x e b' => doo v, t1 <- eval n env e t; eval_block n ((x, v) :: env) b' t1
+  | BLet x e b' => doo v, t1 <- eval funs n env e t; eval_block funs n ((x, v) :: env) b' t1
   | BDestr xs e b' =>
-      doo v, t1 <- eval n env e t;
+      doo v, t1 <- eval funs n env e t;
       match v with
       | VTuple vs => match bind xs vs env with
-                     | Some env' => eval_block n env' b' t1
+                     | Some env' => eval_block funs n env' b' t1
                      | None => Stuck "destructuring: arity"
                      end
       | _ => Stuck "destructuring: not a tuple"
       end
-  | BDo e b' => doo v, t1 <- eval n env e t; eval_block n env b' t1
-  | BRet e u => doo v, t1 <- eval n env e t; check_unit u v t1
+  | BDo e b' => doo v, t1 <- eval funs n env e t; eval_block funs n env b' t1
+  | BRet e u => doo v, t1 <- eval funs n env e t; check_unit u v t1
   end end
-with apply (n:nat) (f:val) (vs:list val) (t:trace) {struct n} : res val :=
+with apply (funs:fundefs) (n:nat) (f:val) (vs:list val) (t:trace) {struct n} : res val :=
   match n with O => Fuel | S n =>
   match f with
   | VClo env ps b =>
       match bind ps vs env with
-      | Some env' => eval_block n env' b t
+      | Some env' => eval_block funs n env' b t
       | None => Stuck "call: arity"
       end
   | VPap g ws k u =>
-      if Nat.eqb (List.length vs) k then doo v, t1 <- apply n g (ws ++ vs) t; check_unit u v t1
+      if Nat.eqb (List.length vs) k then doo v, t1 <- apply funs n g (ws ++ vs) t; check_unit u v t1
       else Stuck "call: arity of a partial application"
   | _ => Stuck "call: not a function"
   end end.
 
-End Eval.
+
 
 Definition run_src (n:nat) (p:prog) : outcome :=
   match eval_block (p_funs p) n [] (p_main p) [] with
